@@ -24,6 +24,8 @@ package rules
 
 import (
 	"fmt"
+	"math"
+	"strings"
 	"unicode/utf8"
 
 	"github.com/kstenerud/go-concise-encoding/ce/events"
@@ -144,6 +146,7 @@ func (_this *Context) BeginArrayKeyable(contextDesc string, arrayType events.Arr
 
 func (_this *Context) BeginArrayMediaData() {
 	_this.ValidateContentsString(_this.builtArrayBuffer)
+	_this.ValidateMediaType(string(_this.builtArrayBuffer))
 	_this.UnstackRule()
 	_this.beginArray(events.ArrayTypeMediaData, &arrayRule, DataTypeMedia, _this.config.Rules.MaxArraySizeBytes, _this.ValidateNothing)
 }
@@ -250,6 +253,32 @@ func (_this *Context) ValidateIdentifier(data []uint8) {
 	}
 	if !chars.IsIdentifierSafe(data) {
 		panic(fmt.Errorf("identifier contains invalid characters"))
+	}
+}
+
+// A media type must have the form type/subtype, using only the characters
+// that the text format can express.
+func (_this *Context) ValidateMediaType(mediaType string) {
+	isFirstChar := func(ch byte) bool {
+		return (ch >= 'a' && ch <= 'z') || (ch >= 'A' && ch <= 'Z')
+	}
+	isNextChar := func(ch byte) bool {
+		return isFirstChar(ch) || (ch >= '0' && ch <= '9') || strings.IndexByte("!#$%&'*+.^_`|~{}-", ch) >= 0
+	}
+
+	slashIndex := strings.IndexByte(mediaType, '/')
+	isValid := slashIndex > 0 && slashIndex < len(mediaType)-1 && isFirstChar(mediaType[0])
+	for i := 1; isValid && i < len(mediaType); i++ {
+		isValid = i == slashIndex || isNextChar(mediaType[i])
+	}
+	if !isValid {
+		panic(fmt.Errorf("%q is not a valid media type", mediaType))
+	}
+}
+
+func (_this *Context) ValidateCustomType(customType uint64) {
+	if customType > math.MaxUint32 {
+		panic(fmt.Errorf("custom type code %v is too big (max allowed value = %v)", customType, uint32(math.MaxUint32)))
 	}
 }
 
